@@ -414,12 +414,12 @@ void reb_integrator_trace_bs_step(struct reb_simulation* const r, double dt){
         nbody_ode->derivatives = reb_integrator_trace_nbody_derivatives;
         nbody_ode->needs_nbody = 0;
 
-        // TODO: Support backwards integrations
-        while(r->t < t_needed && fabs(dt/old_dt)>1e-14 ){
+        const double dtsign = (dt>=0.) ? 1. : -1.; // direction of integration
+        while(r->t*dtsign < t_needed*dtsign && fabs(dt/old_dt)>1e-14 ){
             double* y = nbody_ode->y;
 
             // In case of overshoot
-            if (r->t + dt >  t_needed){
+            if ((r->t + dt)*dtsign >  t_needed*dtsign){
                 dt = t_needed - r->t;
             }
 
